@@ -570,13 +570,14 @@ type T struct {
 	cleanups  []func()
 	cleaning  atomic.Bool
 
-	tbLog    bool
-	rawLog   *log.Logger
-	s        bitStream
-	draws    int
-	refDraws []any
-	mu       sync.RWMutex
-	failed   stopTest
+	tbLog      bool
+	rawLog     *log.Logger
+	s          bitStream
+	draws      int
+	drawsBegun int // draws that were started, including the ones abandoned by a generator giving up
+	refDraws   []any
+	mu         sync.RWMutex
+	failed     stopTest
 }
 
 func newT(tb tb, s bitStream, tbLog bool, rawLog *log.Logger, refDraws ...any) *T {
